@@ -2,7 +2,8 @@
 from fractions import Fraction
 from .common import Check, correspond, canon, I64MIN, I64MAX
 
-THEOREMS = {'C18': ['Cctz.C18.split_floor', 'Cctz.C18.split_ok', 'Cctz.C18.join_coarse', 'Cctz.C18.join_rep', 'Cctz.C18.femto']}
+THEOREMS = {'C18': ['Cctz.C18.split_floor', 'Cctz.C18.split_ok', 'Cctz.C18.join_coarse', 'Cctz.C18.join_rep', 'Cctz.C18.femto',
+                    'Cctz.C18Join.join_fine_floor', 'Cctz.C18Join.join_fine_ok', 'Cctz.C18Join.split_join', 'Cctz.C18Join.join_fine_monotone']}
 
 # (N, D, rep tag, rep min, rep max)
 PANEL = [(1, 10**9, 'i64', I64MIN, I64MAX), (1, 10**6, 'i64', I64MIN, I64MAX), (1, 10**3, 'i64', I64MIN, I64MAX),
@@ -45,7 +46,7 @@ def subapi_want(N, D, c):
 
 
 def run_C18(chk):
-    chk.prepare_model(['Cctz.Properties.C18', 'Cctz.Properties.C07Whole'], THEOREMS['C18'] + ['Cctz.C07Whole.frac_truncated', 'Cctz.C07Whole.frac_star'])
+    chk.prepare_model(['Cctz.Properties.C18', 'Cctz.Properties.C18Join', 'Cctz.Properties.C07Whole'], THEOREMS['C18'] + ['Cctz.C07Whole.frac_truncated', 'Cctz.C07Whole.frac_star'])
     exe = chk.harness('san')
     scale = chk.tier if not (chk.broken or chk.degraded) else 'thorough'
     if exe is None or not getattr(chk, 'driver_ok', False):
